@@ -26,7 +26,7 @@ ASSUMPTIONS = [
     "Only allocations made directly by the rule are counted; work wires consumed inside emitted operators' own decompositions are "
     "those operators' declarations.",
 ]
-BUDGET = {"quick": {"examples": 900}, "thorough": {"examples": 60000, "shards": 16}}
+BUDGET = {"quick": {"examples": 900}, "thorough": {"examples": 30000, "shards": 8}}
 SHRINK_LISTS = ()
 
 KIND = {("zero", True): "zeroed", ("any", True): "borrowed", ("zero", False): "burnable", ("any", False): "garbage"}
